@@ -1,4 +1,4 @@
-import GeffProofs.KVCommit
+import GeffProofs.KVConcurrent
 /-! # C05 — a failed or interrupted write never leaves a wrong graph that looks valid
 
 Model: `GeffModel/KV.lean` — the store as a recording zarr store sees it (insertion-ordered
@@ -50,6 +50,34 @@ theorem C05_every_crash_point (d : Docs) (kind : Kind) (f : Fmt) (g : G) (overwr
       have : kv = kv₀ := h
       rw [this]
       exact not_recognised_of_noGeff (hpre.fresh hc').1
+
+/-- **C05, failures inside a concurrent batch** — zarr writes the metadata documents of one array
+or group through one `asyncio.gather`: when one of them fails its siblings still complete, so the
+surviving store is a prefix of the trace *plus some later mutations of the same batch*.  For every
+sequence `T` of mutations a single failure can leave applied (`CrashSeq`: all earlier phases, and
+in the current phase any sub-sequence — for the two delete phases the first deletion followed by
+any sub-sequence of the rest), the store `run kv₀ T` is not recognised, or shows exactly the new
+graph (same geff attribute, same geff-controlled keys and documents as the committed store), or is
+the untouched previous store. -/
+theorem C05_every_failure_state (d : Docs) (kind : Kind) (f : Fmt) (g : G) (overwrite validate : Bool)
+    (kv₀ : KV) (hpre : PreOK kind f overwrite kv₀) (T : List Op)
+    (hT : CrashSeq (phases d kind f g overwrite validate kv₀) T) :
+    let P := phases d kind f g overwrite validate kv₀
+    recognised f (run kv₀ T) = false ∨
+      (P.committed = true ∧ geffView f (run kv₀ T) = geffView f (run kv₀ (P.D ++ P.W ++ P.C))) ∨
+      run kv₀ T = kv₀ :=
+  writeArrays_crashSeq d kind f g overwrite validate kv₀ hpre hT
+
+/-- the phases are the trace, and every prefix of it is one of the failure sequences — so
+`C05_every_failure_state` covers every crash point in program order as well -/
+theorem C05_failure_states_cover_prefixes (d : Docs) (kind : Kind) (f : Fmt) (g : G)
+    (overwrite validate : Bool) (kv₀ : KV) (k : Nat) :
+    let P := phases d kind f g overwrite validate kv₀
+    (writeArrays d kind f g overwrite validate kv₀).ops = P.D ++ P.W ++ P.C ++ P.X ∧
+    CrashSeq P ((writeArrays d kind f g overwrite validate kv₀).ops.take k) := by
+  intro P
+  have h := phases_ops d kind f g overwrite validate kv₀
+  exact ⟨h, by rw [h]; exact crashSeq_take P k⟩
 
 /-- `write_dicts` is `write_arrays` without `overwrite` -/
 theorem C05_every_crash_point_write_dicts (d : Docs) (kind : Kind) (f : Fmt) (g : G) (validate : Bool)
